@@ -402,6 +402,9 @@ HISTORIES = [
       ({"main.bard": ":: Start\nHi\n@include chapters/one.bard\n", "chapters/one.bard": ":: One\none\n@include ../shared/lib.bard\n",
         "shared/lib.bard": ":: Lib\nlib\n@include ../chapters/./one.bard\n"}, "main.bard"),
       ({"shared/lib.bard": ":: Lib\nlib\n"}, "main.bard")]),
+    ("two stories compiled to the same output file, and back",
+     [({"main.bard": ":: Start\nmain story\n+ [go] -> A\n@include a.bard\n", "a.bard": ":: A\nA of main\n", "other.bard": ":: Start\nother story\n"}, "main.bard"),
+      ({}, "other.bard"), ({}, "main.bard"), ({}, "other.bard")]),
     ("a diamond after a failure",
      [({"main.bard": ":: Start\nHi\n@include l.bard\n@include r.bard\n", "l.bard": ":: L\nl\n@include nope.bard\n", "r.bard": ":: R\nr\n"}, "main.bard"),
       ({"l.bard": ":: L\nl\n"}, "main.bard")]),
@@ -413,7 +416,7 @@ def history_probes(rep, prop, only_edit=False):
     the text obtained by substituting the includes of the files as they are at that moment"""
     n = 0
     for name, steps in HISTORIES:
-        if only_edit and "edited" not in name:
+        if only_edit and "edited" not in name and "same output" not in name:
             continue
         d = tempfile.mkdtemp(prefix="verif_hist_")
         try:
